@@ -243,3 +243,71 @@ func VH_C16_copy_same_message() {
 	dp2, _ := dst.Ptr(0)
 	vAssert(dp2.Data()[0] == payload[0], "C16.same.independent-of-source-mutation")
 }
+
+// List.SetStruct into a populated element of a struct list of a different version: the element
+// becomes the source truncated / zero-extended (a zero-sized source clears it); the neighbouring
+// element is untouched.
+func VH_C16_setstruct_skew() {
+	_, sa := vNewMsg()
+	Ds := vConc(int(vNondetU8()), 3)
+	Ps := vConc(int(vNondetU8()), 2)
+	src, err := NewStruct(sa, ObjectSize{DataSize: Size(8 * Ds), PointerCount: uint16(Ps)})
+	vAssume(err == nil)
+	var w [2]uint64
+	for i := 0; i < Ds; i++ {
+		w[i] = vNondetU64()
+		src.SetUint64(DataOffset(8*i), w[i])
+	}
+	payload := vNondetBytes(2)
+	if Ps > 0 {
+		vAssume(src.SetData(0, payload) == nil)
+	}
+	sb := sa
+	if vConc(int(vNondetU8()), 2) == 1 {
+		_, sb = vNewMsg()
+	}
+	Dd := 1 + vConc(int(vNondetU8()), 2)
+	Pd := vConc(int(vNondetU8()), 2)
+	l, err := NewCompositeList(sb, ObjectSize{DataSize: Size(8 * Dd), PointerCount: uint16(Pd)}, 2)
+	vAssume(err == nil)
+	var g [2][2]uint64
+	for e := 0; e < 2; e++ {
+		for i := 0; i < Dd; i++ {
+			g[e][i] = vNondetU64()
+			l.Struct(e).SetUint64(DataOffset(8*i), g[e][i])
+		}
+		if Pd > 0 {
+			vAssume(l.Struct(e).SetData(0, []byte{9, 9, 9}) == nil)
+		}
+	}
+	k := vConc(int(vNondetU8()), 2) // concrete per path (a merged 0/1 makes every address symbolic)
+	err = l.SetStruct(k, src)
+	vReach("set")
+	vAssert(err == nil, "C16.setstruct.no-error")
+	if err != nil {
+		return
+	}
+	el, other := l.Struct(k), l.Struct(1-k)
+	for i := 0; i < Dd; i++ {
+		want := uint64(0)
+		if i < Ds {
+			want = w[i]
+		}
+		vAssert(el.Uint64(DataOffset(8*i)) == want, "C16.setstruct.data-truncated-or-zero-extended")
+		vAssert(other.Uint64(DataOffset(8*i)) == g[1-k][i], "C16.setstruct.neighbour-untouched")
+	}
+	if Pd > 0 {
+		p, err := el.Ptr(0)
+		vAssert(err == nil, "C16.setstruct.pointer-readable")
+		if err == nil {
+			if Ps > 0 {
+				d := p.Data()
+				vAssert(len(d) == 2 && d[0] == payload[0] && d[1] == payload[1], "C16.setstruct.pointer-copied")
+			} else {
+				vAssert(!p.IsValid(), "C16.setstruct.extra-pointers-nulled")
+			}
+		}
+		q, err := other.Ptr(0)
+		vAssert(err == nil && len(q.Data()) == 3, "C16.setstruct.neighbour-pointer-untouched")
+	}
+}
